@@ -1,6 +1,7 @@
 import SignaloModel.Proofs.BridgeHull
 import SignaloModel.Proofs.BridgeSimple
 import SignaloModel.Proofs.SmoothProofs
+import SignaloModel.Proofs.RegMisc
 /-!
 # C06 — Scalar Kalman filter follows the textbook recursion and stays in the data hull
 
@@ -9,6 +10,7 @@ The property theorems for C06: `#check` prints each statement, `#print axioms` i
 -/
 open SignaloModel
 
+#check @Registry.kalman_registry_cov_nonneg
 #check @Registry.kalman_step_textbook
 #check @Registry.kalman_state
 #check @Registry.kalman_registry_correct
@@ -17,6 +19,7 @@ open SignaloModel
 #check @kalman_zero_control
 #check @Smooth.kalman_hull
 
+#print axioms Registry.kalman_registry_cov_nonneg
 #print axioms Registry.kalman_step_textbook
 #print axioms Registry.kalman_state
 #print axioms Registry.kalman_registry_correct
